@@ -28,9 +28,9 @@ theorem auto_picture_number_step (last : Nat) (u : AUnit)
     (hk : (isPictureCode u.code || isFragmentCode u.code) = true) :
     (u.picNum = none →
       (numberStep last u).1.picNum =
-        some (if (isPictureCode u.code || u.sliceCount.getD 0 == 0) = true then (last + 1) % M32 else last) ∧
+        some (if (isPictureCode u.code || u.sliceCount.getD VC2.Gen.default_fragment_slice_count == 0) = true then (last + 1) % M32 else last) ∧
       (numberStep last u).2 =
-        (if (isPictureCode u.code || u.sliceCount.getD 0 == 0) = true then (last + 1) % M32 else last)) ∧
+        (if (isPictureCode u.code || u.sliceCount.getD VC2.Gen.default_fragment_slice_count == 0) = true then (last + 1) % M32 else last)) ∧
     (∀ n, u.picNum = some n → (numberStep last u).2 = n) :=
   ⟨fun hp => numberStep_auto last u hp hk, fun n hn => numberStep_explicit last u n hn hk⟩
 
@@ -74,7 +74,7 @@ theorem auto_major_version_filled (seq : List AUnit) (i : Nat) (hi : i < seq.len
     carried no feature: the transform that is decoded is unchanged -/
 theorem dropped_extended_parameters_were_inert (seq : List AUnit) (h3 : requiredVersion seq < 3)
     (u : AUnit) (hu : u ∈ seq) (ht : hasTP u = true) (hc : (u.code == 0) = false) (t : TP) (htp : u.tp = some t) :
-    t.waveletHo.getD t.wavelet = t.wavelet ∧ t.depthHo.getD 0 = 0 := by
+    t.who = t.w ∧ t.dho = 0 := by
   apply tpVersion_lt3
   have := (foldl_max_ge seq VC2.Gen.MINIMUM_MAJOR_VERSION).2 u hu
   have h2 : tpVersion t ≤ unitVersion u := by
@@ -83,6 +83,33 @@ theorem dropped_extended_parameters_were_inert (seq : List AUnit) (h3 : required
     exact pymax_ge_right _ _
   unfold requiredVersion at h3
   omega
+
+/-- **omitted fields take their documented defaults**: what the version rule reads from transform
+    parameters with omitted fields (2-D wavelet, asymmetry flags, horizontal-only wavelet and depth) is
+    exactly what it reads once every default is written out - which is what the serialiser puts in the
+    stream - so the automatic version is the one the SERIALISED stream's features require -/
+theorem omitted_fields_take_documented_defaults (t : TP) :
+    t.filled.w = t.w ∧ t.filled.who = t.who ∧ t.filled.dho = t.dho ∧ tpVersion t.filled = tpVersion t := by
+  have h1 : t.filled.w = t.w := rfl
+  have h2 : t.filled.who = t.who := by
+    unfold TP.who TP.w TP.filled; simp only [Option.getD_some]; rfl
+  have h3 : t.filled.dho = t.dho := by
+    unfold TP.dho TP.filled; simp only [Option.getD_some]
+  exact ⟨h1, h2, h3, by unfold tpVersion; rw [h1, h2, h3]⟩
+
+/-- a set index flag whose wavelet is omitted means the DEFAULT horizontal-only wavelet, not the 2-D one
+    (the confusion seeded change C07e1 makes) -/
+theorem set_flag_with_omitted_value (t : TP) (hf : t.asymIndexFlag = some true) (hv : t.waveletHo = none) :
+    t.who = VC2.Gen.default_wavelet_index_ho := by
+  simp [TP.who, hf, hv]
+
+/-- the table the autofill code consults and the serialiser's own table agree on these defaults (both generated) -/
+example : VC2.Gen.default_wavelet_index = VC2.Gen.serialiser_default_wavelet_index ∧
+    VC2.Gen.default_asym_transform_index_flag = VC2.Gen.serialiser_default_asym_transform_index_flag ∧
+    VC2.Gen.default_wavelet_index_ho = VC2.Gen.serialiser_default_wavelet_index_ho ∧
+    VC2.Gen.default_asym_transform_flag = VC2.Gen.serialiser_default_asym_transform_flag ∧
+    VC2.Gen.default_dwt_depth_ho = VC2.Gen.serialiser_default_dwt_depth_ho ∧
+    VC2.Gen.default_fragment_slice_count = VC2.Gen.serialiser_default_fragment_slice_count := by decide
 
 /-- **parse offsets equal the true distances**: an AUTO next offset is the unit's own length
     (0 for the last unit of the sequence; 13 + payload length for padding/auxiliary data), an AUTO
@@ -104,10 +131,10 @@ def h0 : Hdr := { majorVersion := none, profile := 3, frameRate := none, signalR
                   primaries := none, matrix := none, transfer := none }
 def sq : List AUnit := [
   { code := 0, len := 30, hdr := some h0 },
-  { code := 0xE8, len := 50, tp := some { wavelet := 1, waveletHo := none, depthHo := none, hasEtp := true } },
+  { code := 0xE8, len := 50, tp := some { wavelet := some 1, asymIndexFlag := none, waveletHo := none, asymFlag := none, depthHo := none, hasEtp := true } },
   { code := 0x30, len := 17, dataLen := 4 },
-  { code := 0xE8, len := 50, picNum := some 4294967295, tp := some { wavelet := 1, waveletHo := none, depthHo := none, hasEtp := false } },
-  { code := 0xEC, len := 40, sliceCount := some 0, tp := some { wavelet := 1, waveletHo := none, depthHo := none, hasEtp := false } },
+  { code := 0xE8, len := 50, picNum := some 4294967295, tp := some { wavelet := some 1, asymIndexFlag := none, waveletHo := none, asymFlag := none, depthHo := none, hasEtp := false } },
+  { code := 0xEC, len := 40, sliceCount := some 0, tp := some { wavelet := some 1, asymIndexFlag := none, waveletHo := none, asymFlag := none, depthHo := none, hasEtp := false } },
   { code := 0xEC, len := 45, sliceCount := some 2 },
   { code := 0x10, len := 13 }]
 
